@@ -4,7 +4,7 @@ from .. import simprop
 ID = "C08"
 FAMILY = "C08"
 VARIANTS = ("asan",)
-BUDGET = {"quick": dict(examples=16000, seconds=60), "thorough": dict(examples=400000, seconds=540)}
+BUDGET = {"quick": dict(examples=80000, seconds=55), "thorough": dict(examples=2000000, seconds=540)}
 NONTRIVIAL = {'delivered-interrupt', 'end-with-obligations', 'wait-ended-by-timeout', 'pq-cancel'}
 PROFILES = [(4, 'wakeup'), (1, 'mixed')]
 RULE = ('Hypothesis-generated scenarios (profile wakeup 80%, mixed 20%) over resources, pools, buffers, object and priority queues with waiters that leave by timeout / interrupt / stop in the instant in which they were granted, rollbacks, holder drops, priority-queue cancels. Oracle: at the end of every simulated instant and at quiescence no process is blocked on a free resource, on a pool with units available, as getter on a buffer/queue with content or as putter on one with space. Non-trivial = a wait ended by timeout or interrupt, or a process ended with holdings/waits, or an object was cancelled from a priority queue. distinct = SHA-1 of the scenario text.')
